@@ -1,4 +1,4 @@
-import Oidc.Proofs.Verify
+import Oidc.Proofs.VerifyRevoke
 import Oidc.Facts
 /-! # C14 — caching a verification result never changes the verdict (property theorems only)
 
@@ -41,6 +41,16 @@ theorem revTTL_covers (F : Facts) (T : TokOf) (tr : Int) (id : String) (h : F.re
     T.exp id + F.skew ≤ tr + revTTL F T tr id ∧ tr + F.blTTL ≤ tr + revTTL F T tr id :=
   Oidc.Verify.revTTL_covers F T tr id h
 
+/-- revocation over histories: after `RevokeToken id` at `tr`, along every history with a non-decreasing clock in which the
+    revocation list never has to evict (the property's "within the capacity of the revocation list") and no token's `jti` equals
+    the raw token `id` (both kinds of key share the list), `VerifyToken id` is never answered positively before the end of the
+    listing period — which `revTTL_covers` shows to reach at least to the instant after which a from-scratch verification
+    rejects the token anyway -/
+theorem revoked_stays_rejected (F : Facts) (T : TokOf) (id : String) (tr : Int) (hjti : ∀ x, T.jti x ≠ some id)
+    (ops : List Op) (v : V) (hm : Mono tr ops) (hroom : RoomAlong F T (revoke F T v tr id) ops) :
+    ∀ now, (Op.verify now id, some true) ∈ answers F T (revoke F T v tr id) ops → tr + revTTL F T tr id ≤ now :=
+  Oidc.Verify.revoked_stays_rejected F T id tr hjti ops v hm hroom
+
 /-- obligation against the regenerated facts -/
 theorem facts_ok : Oidc.Facts.GoodVerify := by decide
 
@@ -51,5 +61,8 @@ def exV : V := ⟨Cache.init 4, Cache.init 4, Limiter.init 10⟩
 example : (verify exF exT exV 5 "t").2 = true := by decide
 example : (verify exF exT (revoke exF exT (verify exF exT exV 5 "t").1 6 "t") 7 "t").2 = false := by decide
 example : (verify exF exT (revoke exF exT (verify exF exT exV 5 "t").1 6 "t") 1100 "t").2 = false := by decide
+example : RoomAlong exF exT (revoke exF exT exV 6 "t") [.verify 7 "t", .verify 8 "u", .tick 9, .verify 1100 "t"] := by
+  simp only [RoomAlong]
+  refine ⟨?_, ?_, ?_, ?_, trivial⟩ <;> decide
 
 end Oidc.Props.C14
